@@ -202,12 +202,14 @@ def execLine2 (w : World) (line : String) : World × String :=
       | some .dead => (w.set b .dead, "dead")
       | some .unmodelled => (w.set b .unmodelled, "unmodelled")
       | some (.total x _) =>
-        -- `slice_some` only reads the source: the same function of the state, whatever calls made it
-        if x.holes.isEmpty then
-          match sliceSome x.g v (fun x y l => !rj.contains (x, y, l)) with
+        -- `slice_some` only reads the source: the same function of the state, whatever calls made it (a removed slot
+        -- among the reached vertices is a panic: Algo/SliceHoles.lean)
+        let reachesHole : Bool := match sliceDone x.g v (fun x y l => !rj.contains (x, y, l)) with
+            | some done => done.any (fun u => x.holes.contains u) | none => false
+        if !x.acc v || reachesHole then (w.set b .dead, "panic")
+        else match sliceSomeX x v (fun x y l => !rj.contains (x, y, l)) with
           | some g' => (w.set b (.live g'), "ok ; " ++ showNats (keys g'))
           | none => (w.set b .unmodelled, "unmodelled")
-        else (w.set b .unmodelled, "unmodelled")
       | none => (w, "bad-op")
     | _, _, _, _ => (w, "bad-op")
   | ["merge", h, h', l, r] =>
@@ -343,10 +345,10 @@ def execLine (w : World) (line : String) : World × String :=
       | some .dead => (w, "dead")
       | some .unmodelled => (w, "unmodelled")
       | some (.total x _) =>
-        -- the exports only read the state: the same functions of it, whatever calls made it
-        if x.holes.isEmpty then
-          (w, "ok " ++ esc (if cmd = "xml" then Rs.toXml x.g else if cmd = "dot" then Rs.toDot x.g else Rs.toDebug x.g))
-        else (w, "unmodelled")
+        -- the exports only read the state: the same functions of it, whatever calls made it (`vertices.iter()` skips a
+        -- removed slot: it is an absent vertex for them)
+        let g := blankHoles x
+        (w, "ok " ++ esc (if cmd = "xml" then Rs.toXml g else if cmd = "dot" then Rs.toDot g else Rs.toDebug g))
       | none => (w, "bad-op")
     else execLine2 w line
   | [cmd, h, v] =>
@@ -359,11 +361,15 @@ def execLine (w : World) (line : String) : World × String :=
       | some .dead, _ => (w, "dead")
       | some .unmodelled, _ => (w, "unmodelled")
       | some (.total x _), some v =>
-        if x.holes.isEmpty then
+        -- a removed slot: `Err` for the vertex asked about, a panic (`unwrap()` in the recursion) when it is reached below it
+        let reachesHole : Bool := match sliceDone x.g v (fun _ _ _ => true) with
+            | some done => done.any (fun u => x.holes.contains u) | none => false
+        if v < cap x.g ∧ x.holes.contains v then (w, "err")
+        else if cmd = "inspect" ∧ reachesHole then (w, "panic")
+        else
           match (if cmd = "inspect" then Rs.toInspect x.g v else Rs.vPrint x.g v) with
           | some t => (w, "ok " ++ esc t)
           | none => (w, "panic")
-        else (w, "unmodelled")
       | _, _ => (w, "bad-op")
     else execLine2 w line
   | _ => execLine2 w line
